@@ -832,7 +832,12 @@ class AnsiString:
                 elif len(optimized_codes_str) < len(codes_str):
                     codes_str = optimized_codes_str
             if idx == 0 and reset_start:
-                codes_str = ansi_sep.join([str(AnsiParam.RESET.value), codes_str])
+                if apply_to_out_str:
+                    codes_str = ansi_sep.join([str(AnsiParam.RESET.value), codes_str])
+                else:
+                    # Nothing to apply at the start, but the reset was still requested
+                    codes_str = ''
+                    apply_to_out_str = True
             # Apply these settings
             if apply_to_out_str:
                 out_str += ansi_graphic_rendition_format.format(codes_str)
